@@ -33,6 +33,35 @@ function p.full(frame)
   return s
 end
 
+-- like full, but every argument is read three times (index, index, pairs);
+-- the dump uses the LAST read and fails loudly when the reads disagree
+local function reread(args)
+  local out = {}
+  local keys = {}
+  for k, _ in pairs(args) do keys[#keys + 1] = k end
+  for _, k in ipairs(keys) do
+    local a = args[k]
+    local b = args[k]
+    if a ~= b then error("reads of argument " .. tostring(k) .. " disagree") end
+    out[k] = b
+  end
+  for k, v in pairs(args) do
+    if out[k] ~= v then error("pairs() and index disagree for " .. tostring(k)) end
+  end
+  return out
+end
+
+function p.full2(frame)
+  local pf = frame:getParent()
+  local s = "T" .. ser(frame:getTitle()) .. dump_args(reread(frame.args))
+  if pf then
+    s = s .. "P" .. ser(pf:getTitle()) .. dump_args(reread(pf.args))
+  else
+    s = s .. "P-"
+  end
+  return s
+end
+
 function p.f(frame)
   return "<" .. (frame.args[1] or "") .. ">"
 end
